@@ -102,17 +102,26 @@ def escape : List Char → List Char
 
 /-! ### multi-line strings -/
 
-def splitLines (s : List Char) : List (List Char) :=
-  let rec go : List Char → List Char → List (List Char)
-    | [], cur => [cur.reverse]
-    | '\n' :: rest, cur => cur.reverse :: go rest []
-    | c :: rest, cur => go rest (c :: cur)
-  go s []
+/-- split at `\n` (the separators are dropped) -/
+def splitLines : List Char → List (List Char)
+  | [] => [[]]
+  | c :: rest =>
+    if c = '\n' then [] :: splitLines rest
+    else match splitLines rest with
+      | l :: ls => (c :: l) :: ls
+      | [] => [[c]]
 
-def dropCR (l : List Char) : List Char :=
-  match l.reverse with
-  | '\r' :: r => r.reverse
-  | _ => l
+/-- `str::lines` yields no final empty line -/
+def dropLastEmpty : List (List Char) → List (List Char)
+  | [] => []
+  | [[]] => []
+  | l :: ls => l :: dropLastEmpty ls
+
+/-- … and strips one `\r` at the end of each line -/
+def dropCR : List Char → List Char
+  | [] => []
+  | ['\r'] => []
+  | c :: rest => c :: dropCR rest
 
 def trimStart : List Char → List Char
   | ' ' :: r => trimStart r
@@ -137,11 +146,14 @@ def mapM? {α β} (f : α → Option β) : List α → Option (List β)
 /-- `MultilineStrExpr` lowering on the whole token text (`str::lines`, `trim_start_matches([' ', '\t'])`,
 `strip_prefix("\\\\")`, `join("\n")`) -/
 def lowerMultiline (text : List Char) : Option (List Char) :=
-  -- `str::lines` does not yield a final empty line
-  let ls := splitLines text
-  let ls := match ls.reverse with
-    | [] :: r => r.reverse
-    | _ => ls
-  (mapM? (fun l => stripMarker (trimStart (dropCR l))) ls).map joinLines
+  (mapM? (fun l => stripMarker (trimStart (dropCR l))) (dropLastEmpty (splitLines text))).map joinLines
+
+/-! spelling of a multi-line string: per line some blanks, the `\\` marker, the content -/
+def spellLine (ind content : List Char) : List Char := ind ++ '\\' :: '\\' :: content
+
+def spellLines : List (List Char × List Char) → List Char
+  | [] => []
+  | [(i, l)] => spellLine i l
+  | (i, l) :: rest => spellLine i l ++ '\n' :: spellLines rest
 
 end Goml.StrLit
